@@ -8,6 +8,7 @@ import (
 	"fmt"
 	"os"
 	"path/filepath"
+	"regexp"
 	"sort"
 	"strings"
 	"sync"
@@ -107,7 +108,7 @@ func hasProp(props []string, p string) bool {
 }
 
 func specHasProp(f *spec.FuncSpec, p string) bool {
-	if hasProp(f.Props, p) || hasProp(f.SafetyProp, p) {
+	if hasProp(f.Props, p) || hasProp(f.SafetyProp, p) || hasProp(f.FrameProps, p) {
 		return true
 	}
 	for _, c := range f.Requires {
@@ -217,8 +218,12 @@ func runObligations(cfg runCfg, items []*oblResult) {
 			fn := filepath.Join(cfg.workDir, sanitizeFile(it.Name)+".smt2")
 			os.WriteFile(fn, []byte(q), 0o644)
 			it.File = fn
-			r := solve.Run(fn, cfg.timeout, cfg.seed, "", false)
-			if r.Status != "sat" && r.Status != "unsat" {
+			to := cfg.timeout
+			if it.obl.ExpectSat && to > 4*time.Second {
+				to = 4 * time.Second // vacuity probes: only `unsat` (contradictory assumptions) is a failure
+			}
+			r := solve.Run(fn, to, cfg.seed, "", false)
+			if r.Status != "sat" && r.Status != "unsat" && !it.obl.ExpectSat {
 				// one retry with doubled timeout and all solvers at once
 				r2 := solve.Run(fn, 2*cfg.timeout, cfg.seed+1, "", true)
 				if r2.Status == "sat" || r2.Status == "unsat" {
@@ -232,6 +237,10 @@ func runObligations(cfg runCfg, items []*oblResult) {
 			}
 			it.Expect = want
 			it.ok = it.Status == want
+			if it.obl.ExpectSat {
+				// a probe that the solver cannot decide (quantified axioms) is inconclusive, not vacuous
+				it.ok = it.Status != "unsat"
+			}
 			if it.ok && cfg.crossCheck && want == "unsat" {
 				// confirm with a second solver where one terminates; a disagreement is a failure
 				for _, s := range solve.Available() {
@@ -294,6 +303,24 @@ func cmdCheck(args []string) int {
 	if err != nil {
 		return fail("contract parse error: " + err.Error())
 	}
+	// functions that only refine fnspecs inherit the fnspecs' properties
+	fnspecProps := map[string][]string{}
+	for _, e := range idx {
+		for _, f := range e.cf.Funcs {
+			if f.IsFnSpec {
+				fnspecProps[f.Name] = append(append(append([]string{}, f.Props...), f.FrameProps...), f.SafetyProp...)
+			}
+		}
+	}
+	for _, e := range idx {
+		for _, f := range e.cf.Funcs {
+			if !f.IsFnSpec && len(f.Props) == 0 {
+				for _, rn := range f.Refines {
+					f.Props = append(f.Props, fnspecProps[rn]...)
+				}
+			}
+		}
+	}
 	dirSet := map[string]bool{}
 	type target struct {
 		key string
@@ -304,6 +331,11 @@ func cmdCheck(args []string) int {
 		for _, f := range e.cf.Funcs {
 			if f.IsFnSpec || f.Assumed {
 				continue
+			}
+			if re := os.Getenv("GOCV_FUNCS"); re != "" { // development filter
+				if ok, _ := regexp.MatchString(re, f.Name); !ok {
+					continue
+				}
 			}
 			if specHasProp(f, prop) {
 				dirSet[e.dir] = true
@@ -400,6 +432,11 @@ func cmdCheck(args []string) int {
 		failed = append(failed, it)
 	}
 	sort.Slice(failed, func(i, j int) bool { return failed[i].Name < failed[j].Name })
+	if os.Getenv("GOCV_VERBOSE") != "" {
+		for _, it := range failed {
+			fmt.Fprintf(os.Stderr, "FAIL %-70s %-8s %6.2fs %s @%s\n", it.Name, it.Status, it.TimeS, trunc(it.Src, 80), it.Where)
+		}
+	}
 	for _, it := range failed {
 		isKnown := false
 		for _, k := range known {
@@ -503,19 +540,27 @@ func writeEvidence(path, prop, tier string, seed int, start time.Time, items []*
 	var samples []any
 	var slowest *oblResult
 	var notProved []string
-	covers := 0
+	covers, coversInconclusive := 0, 0
 	for _, it := range items {
 		if it.outside != nil && it.outside.ok {
 			// known finding: the obligation that counts is the one restricted to inputs outside the recorded failing region
 			it = it.outside
 		}
+		if it.obl.ExpectSat {
+			// vacuity probes are not proof obligations
+			if it.Status == "sat" {
+				covers++
+			} else if it.ok {
+				coversInconclusive++
+			} else {
+				notProved = append(notProved, it.Name+": contradictory assumptions (vacuous)")
+			}
+			continue
+		}
 		total++
 		if it.ok {
 			ok++
 			bySolver[it.Solver]++
-			if it.obl.ExpectSat {
-				covers++
-			}
 		} else {
 			notProved = append(notProved, it.Name+": "+it.Status)
 		}
@@ -533,7 +578,7 @@ func writeEvidence(path, prop, tier string, seed int, start time.Time, items []*
 		"checker_cmd":  fmt.Sprintf("bin/gocv check %s --tier %s  (go/ssa VC generation from /repo working tree; z3-new 5.1.0 | cvc5 1.0 | z3 4.8.12 portfolio)", prop, tier),
 		"trusted_base": []string{"go/packages+go/types+go/ssa (x/tools v0.29.0) faithful to the Go sources", "gocv VC generator: SMT semantics of SSA instructions and memory model (DESIGN.md §2)", "SMT solver soundness (z3 5.1.0, z3 4.8.12, cvc5 1.0)", "sequential execution, no unsafe, int is 64 bit"},
 		"functions_under_contract": funcs, "by_solver": bySolver, "solver_time_s": round3(solverTime),
-		"samples": samples, "known_findings_hit": knownHit, "not_proved": notProved, "covers_sat": covers,
+		"samples": samples, "known_findings_hit": knownHit, "not_proved": notProved, "vacuity_probes_sat": covers, "vacuity_probes_inconclusive": coversInconclusive,
 		"integer_semantics": "mathematical integers with exact machine wrap-around per Go type (no bit-vectors)",
 	}
 	if slowest != nil {
